@@ -27,4 +27,7 @@ for clo in (0, 2, 4):
                           defs=["-DN=5", "-DSMIN=1", "-DSMAX=1", "-DCMIN=%d" % clo, "-DCMAX=%d" % min(clo + 1, 5)], bounds="message of 5 bytes, segment size 1, chunk boundary %d..%d" % (clo, min(clo + 1, 5))))
 OBLIGATIONS.append(md("ctr_incr", "h_ctr_incr", "CTR / CTR32 counter increment: +1 mod 2^128 / low 32 bits only", [], 1, exact=True, bounds="none (all counters)"))
 OBLIGATIONS.append(md("cbc_padding_arbitrary", "h_cbc_padding_arbitrary", "sm4_cbc_padding_decrypt on arbitrary ciphertext: accepted => padding length 1..16 and consistent length; correctly padded input accepted", ["sm4_cbc.c"], 16, bounds="arbitrary ciphertexts of 16 and 32 bytes"))
+OBLIGATIONS.append({"id": "C04-m.cfb_dryrun", "harness": "harness/C04/cfbdry.c", "entry": "h_cfb_dryrun", "units": ["sm4_cfb.c"], "remove": {"sm4_cfb.c": ["sm4_cfb_encrypt", "sm4_cfb_decrypt"]},
+                    "unwind": 20, "timeout": 600, "title": "sm4_cfb_encrypt_update / decrypt_update from any context state: writes the whole segments of buffered + input, never more than the null-buffer size query reports",
+                    "bounds": "segment sizes 1..16, 0..s-1 bytes buffered, input of 1..70 bytes (all symbolic)", "stubs": ["one-shot sm4_cfb_encrypt / decrypt: length recorder that asserts its output range is writable"]})
 NOTE = "C04: ciphers and modes."
